@@ -494,7 +494,25 @@ class C02(Property):
             if idx[:, 0].min() == 0 and not c["wind"][1] and zz.max() - zz.min() + 1 > nz:
                 tag += "+long"
                 break
+        if per and "+winding" in tag:
+            # a winding on-axis object some of whose cells are connected to the rest only through a path that wraps around the axis
+            # more than once: in the image padded by one period on either side these cells form a separate object (input class of the
+            # recorded finding F28)
+            padded = np.pad(mask, [[0, 0], [nz, nz]], mode="wrap")
+            comps_p = O.components(padded, (False, False))
+            label_of = {}
+            for k, cp in enumerate(comps_p):
+                for (i, j), _o in cp["cells"]:
+                    if nz <= j < 2 * nz:
+                        label_of[(i, j - nz)] = k
+            for c in comps:
+                if c["wind"][1] and any(i == 0 for (i, _j), _o in c["cells"]):
+                    if len({label_of[(i, j)] for (i, j), _o in c["cells"]}) > 1:
+                        tag += "+multiwrap"
+                        break
         ctx.cls("cyl", f"periodic_z:{per}", f"on-axis:{min(ncomp, 2)}{'+' if ncomp > 2 else ''}", f"comps:{min(len(comps), 4)}")
+        if "+multiwrap" in tag:
+            ctx.cls("winding-object-connected-through-several-periods")
         touches = per and bool(mask[:, 0].any() or mask[:, -1].any())
         if touches:
             ctx.cls("touches-periodic-face")
